@@ -49,6 +49,10 @@ func genLayout(t *rapid.T, o layoutOpts) Layout {
 	bigRatio := k >= 2 && o.BigRatioPct > 0 && rapid.IntRange(0, 99).Draw(t, "bigRatio") < o.BigRatioPct
 	for i := 1; i < k; i++ {
 		r := rapid.SampledFrom(ratioChoices).Draw(t, "ratio")
+		if rapid.IntRange(0, 9).Draw(t, "oddRatio") == 0 {
+			// any ratio, not only the customary ones (float32 rounding of k/n, k*(1/n) and the like differs by ratio)
+			r = rapid.Int64Range(2, 128).Draw(t, "oddRatioValue")
+		}
 		if o.MaxRatio > 0 && r > o.MaxRatio {
 			r = o.MaxRatio
 		}
